@@ -1,0 +1,91 @@
+//! Read-only accessors for external verification harnesses (feature `__verif`).
+//!
+//! Nothing here is part of the public API; it only exposes the TZif / POSIX TZ readers and the
+//! two zone lookups with the reader's `Ok`/`Err` visible.
+
+use super::tz_info::TimeZone;
+use crate::{MappedLocalTime, NaiveDateTime};
+
+/// `(ut_offset, is_dst, abbreviation)`
+pub type TypeDump = (i32, bool, Option<Vec<u8>>);
+
+/// Rule day as plain data
+#[derive(Debug, Clone, PartialEq, Eq)]
+pub enum DayDump {
+    /// `Jn`
+    Julian1(u16),
+    /// `n`
+    Julian0(u16),
+    /// `Mm.w.d`
+    MonthWeekDay(u8, u8, u8),
+}
+
+/// Transition rule as plain data
+#[derive(Debug, Clone, PartialEq, Eq)]
+pub enum RuleDump {
+    /// Fixed local time type
+    Fixed(TypeDump),
+    /// Alternating local time types
+    Alternate {
+        /// standard time
+        std: TypeDump,
+        /// daylight saving time
+        dst: TypeDump,
+        /// DST start day
+        start: DayDump,
+        /// DST start time, seconds
+        start_time: i32,
+        /// DST end day
+        end: DayDump,
+        /// DST end time, seconds
+        end_time: i32,
+    },
+}
+
+/// Zone as plain data
+#[derive(Debug, Clone, PartialEq, Eq)]
+pub struct ZoneDump {
+    /// `(unix_leap_time, local_time_type_index)`
+    pub transitions: Vec<(i64, usize)>,
+    /// local time types
+    pub types: Vec<TypeDump>,
+    /// `(unix_leap_time, correction)`
+    pub leap_seconds: Vec<(i64, i32)>,
+    /// footer / TZ rule
+    pub rule: Option<RuleDump>,
+}
+
+/// Opaque zone handle
+#[derive(Debug, Clone)]
+pub struct Zone(TimeZone);
+
+/// Build a zone from the contents of a TZif file
+pub fn zone_from_tzif(bytes: &[u8]) -> Result<Zone, String> {
+    TimeZone::from_tz_data(bytes).map(Zone).map_err(|e| e.to_string())
+}
+
+/// Build a zone from a POSIX TZ rule string
+pub fn zone_from_tz_string(tz: &str) -> Result<Zone, String> {
+    TimeZone::verif_from_tz_string(tz).map(Zone).map_err(|e| e.to_string())
+}
+
+/// Structural dump of a zone
+pub fn dump(zone: &Zone) -> ZoneDump {
+    zone.0.verif_dump()
+}
+
+/// UTC offset in seconds at a Unix time
+pub fn offset_at(zone: &Zone, unix_time: i64) -> Result<i32, String> {
+    zone.0.find_local_time_type(unix_time).map(|t| t.offset()).map_err(|e| e.to_string())
+}
+
+/// UTC offsets in seconds for a wall-clock time
+pub fn offsets_for_local(
+    zone: &Zone,
+    local: NaiveDateTime,
+) -> Result<MappedLocalTime<i32>, String> {
+    zone.0
+        .find_local_time_type_from_local(local)
+        .map(|r| r.map(|t| t.offset()))
+        .map_err(|e| e.to_string())
+}
